@@ -162,8 +162,14 @@ def oracle(ctx):
             deep = rnd.choice(['x/y/z', ''])
             os.makedirs(os.path.join(stage, 'usersreal', deep), exist_ok=True)
             shutil.move(os.path.join(stage, 'adm', 'users'), os.path.join(stage, 'usersreal', deep, 'users'))
-            os.symlink(os.path.join('/etc/qv-users', deep, 'users'), os.path.join(stage, 'adm', 'users'))
-            tree = tree + ['<users is a symlink to /etc/qv-users/' + deep + '/users>']
+            if rnd.random() < 0.5:
+                os.symlink(os.path.join('/etc/qv-users', deep, 'users'), os.path.join(stage, 'adm', 'users'))
+                tree = tree + ['<users is a symlink to /etc/qv-users/' + deep + '/users>']
+            else:
+                # a chain of links: users -> hop -> the real directory (one readlink step does not reach a canonical path)
+                os.symlink(os.path.join('/etc/qv-users', deep, 'users'), os.path.join(stage, 'usersreal', 'hop'))
+                os.symlink('/etc/qv-users/hop', os.path.join(stage, 'adm', 'users'))
+                tree = tree + ['<users -> /etc/qv-users/hop -> /etc/qv-users/' + deep + '/users>']
         subprocess.run(['chmod', '-R', 'a+rX', stage])
         cases.append((stage, tree, marks))
 
